@@ -111,7 +111,7 @@ def generate(fname, n, rnd):
     if PER_FUNCTION:
         seen, keep = {}, []
         for fi, si in cand:
-            if fns[fi].name in SKIP:
+            if fns[fi].name in SKIP or (ONLY_FUNCS and fns[fi].name not in ONLY_FUNCS):
                 continue
             if seen.get(fi, 0) < PER_FUNCTION:
                 seen[fi] = seen.get(fi, 0) + 1
@@ -159,10 +159,13 @@ def run_one(m):
 
 PER_FUNCTION = 0
 SKIP = set()
+ONLY_FUNCS = set()
 
 
 def main():
-    global PER_FUNCTION, SKIP
+    global PER_FUNCTION, SKIP, ONLY_FUNCS
+    if "--funcs" in sys.argv:
+        ONLY_FUNCS = set(sys.argv[sys.argv.index("--funcs") + 1].split(","))
     n = int(sys.argv[1])
     if "--per-function" in sys.argv:
         PER_FUNCTION = int(sys.argv[sys.argv.index("--per-function") + 1])
